@@ -83,7 +83,8 @@ func main() {
 			}
 			rs := []ranges.Range{}
 			for _, w := range ws[2:] {
-				if w != "-" {
+				// "@…" words are annotations of the tree run (which decode produced the case)
+				if w != "-" && !strings.HasPrefix(w, "@") {
 					rs = append(rs, ranges.RangeFromString(w))
 				}
 			}
